@@ -45,6 +45,16 @@ pub fn errors() -> Vec<ErrSpec> {
     v
 }
 
+/// Every kind of io::Error, boxed directly and wrapped as SignatureError::IO (crossed with the answer scripts only).
+pub fn io_errors() -> Vec<ErrSpec> {
+    let mut v = Vec::new();
+    for (name, _) in env::IO_KINDS.iter() {
+        v.push(ErrSpec::IoKind(name.to_string()));
+        v.push(ErrSpec::Sig(format!("IO:{}", name), format!("provider i/o failure {}", name)));
+    }
+    v
+}
+
 fn answer_fn(a: &Answer) -> env::AnswerFn {
     let a = a.clone();
     Box::new(move |r| match &a {
@@ -78,7 +88,7 @@ pub fn provider_for(b: &Behaviour) -> Provider {
 fn expected_err(e: &ErrSpec) -> (Kind, Option<String>) {
     match e {
         ErrSpec::Sig(k, m) => {
-            let kind = Kind::ALL.iter().find(|x| x.name() == k.trim_end_matches("None")).copied().unwrap();
+            let kind = Kind::ALL.iter().find(|x| x.name() == k.split(':').next().unwrap_or("").trim_end_matches("None")).copied().unwrap();
             let msg = match k.as_str() {
                 "SignatureDoesNotMatchNone" => Some(String::new()),
                 "InternalServiceError" => None,
@@ -275,6 +285,13 @@ fn behaviours(max_pending: u32) -> Vec<Behaviour> {
         for e in &errs {
             answers.push((j, Answer::Err(e.clone())));
         }
+    }
+    // every io::ErrorKind as the call's answer (bare and wrapped), with and without a pending poll before it
+    for e in io_errors() {
+        for j in 0..=max_pending.min(1) {
+            out.push(Behaviour { ready_pending: 0, ready_err: None, call_pending: j, answer: Answer::Err(e.clone()) });
+        }
+        out.push(Behaviour { ready_pending: 0, ready_err: Some(e.clone()), call_pending: 0, answer: Answer::Correct });
     }
     for (k, re) in &readies {
         if re.is_some() {
@@ -502,7 +519,7 @@ pub fn run(ctx: &Ctx) -> Report {
     Report {
         stats: st,
         rule: format!(
-            "(1) {} request classes (one per stage of the documented order on each carrier, plus valid and wrong signature, with and without a session token, four classes with a folded form body, three whose scope date is a look-alike of the right one (leading zero, plus sign, blank in place of a zero pad), five at the edges of the freshness window at sub-second resolution (half a second outside / inside either way, exactly on the edge with a nine-digit fraction; timestamps written with fractions), and two whose signature is valid under the all-zero / all-0xFF key) x {} provider behaviours: poll_ready answers Pending k times (k <= {p}) then Ready or one of 16 errors (13 SignatureError shapes, io::Error, String, private type); the call's future is Pending j times (j <= {p}) then the correct key, a wrong key or one of the 16 errors. Invariants on every execution: call only after Ready, at most once; requests failing an earlier rule never touch the provider and their error does not depend on it; a SignatureError from the provider comes back with the same kind, code, status and message, any other error as InternalServiceError/500; no provider error or wrong key ends in Ok; the validation future is polled at least 1+k+j times (a Pending is never taken as an answer). (2) every sequence of 1..{} validations over {} (request, behaviour) symbols on ONE provider instance (key rotation correct->wrong->correct, errors, delays): each step's outcome and provider-call count equal what the model says for that step alone (incl. a valid request presented to a validation configured for another service right after it was accepted for its own). (3) a history of 18 validations through the crate's own adapter service_for_signing_key_fn with an invocation counter. states = distinct (class, outcome, provider log length) and distinct history outcome vectors",
+            "(1) {} request classes (one per stage of the documented order on each carrier, plus valid and wrong signature, with and without a session token, four classes with a folded form body, three whose scope date is a look-alike of the right one (leading zero, plus sign, blank in place of a zero pad), five at the edges of the freshness window at sub-second resolution (half a second outside / inside either way, exactly on the edge with a nine-digit fraction; timestamps written with fractions), and two whose signature is valid under the all-zero / all-0xFF key) x {} provider behaviours: poll_ready answers Pending k times (k <= {p}) then Ready or one of 16 errors (13 SignatureError shapes, io::Error, String, private type); the call's future is Pending j times (j <= {p}) then the correct key, a wrong key or one of the 16 errors; plus an io::Error of each of the 36 stable ErrorKinds, boxed directly and wrapped as SignatureError::IO, as the call's answer and as the readiness error. Invariants on every execution: call only after Ready, at most once; requests failing an earlier rule never touch the provider and their error does not depend on it; a SignatureError from the provider comes back with the same kind, code, status and message, any other error as InternalServiceError/500; no provider error or wrong key ends in Ok; the validation future is polled at least 1+k+j times (a Pending is never taken as an answer). (2) every sequence of 1..{} validations over {} (request, behaviour) symbols on ONE provider instance (key rotation correct->wrong->correct, errors, delays): each step's outcome and provider-call count equal what the model says for that step alone (incl. a valid request presented to a validation configured for another service right after it was accepted for its own). (3) a history of 18 validations through the crate's own adapter service_for_signing_key_fn with an invocation counter. states = distinct (class, outcome, provider log length) and distinct history outcome vectors",
             classes.len(), nb, depth, k, p = max_pending
         ),
         bounds: json!({"max_pending": max_pending, "history_depth": depth, "history_alphabet": k, "executions": total, "histories": nh}),
